@@ -1,7 +1,11 @@
 """C05, majority-gate part (qclib/gates/majority.py).  Called from props/c05.py.
 
-Tie: (a) source fingerprint of `operate` (AST dump of the function the Lean model
-`Model/Majority.lean` was written against); (b) the list `n_controls` observed on the real code for
+Tie: (a) SOURCE TIE: the statements of `operate` that compute `n_min` and `n_controls` are re-translated
+on every run (tools/py2lean.py, `translate_block`) into lean/QclibModel/Gen/Majority.lean, and
+`Qclib.C05_majority_src` proves the generated definition equal to the hand model (`majMin`, `majSizes`) for
+every n; the emission loop that follows keeps an AST fingerprint; (a') double tie: the generated definition is
+also executed by the driver and diffed against the Python original for every n <= N (a translator bug shows
+as a disagreement, not as a wrong theorem); (b) the list `n_controls` observed on the real code for
 every n <= N versus `majSizes n`; (c) the full emitted MCX list versus `majority` for small n.
 Oracle: the MCX list emitted by the REAL `operate` (recorded through a duck-typed circuit, so that
 n around 19..23 -- where the historical defect lives -- stays cheap) is evaluated classically:
@@ -18,8 +22,25 @@ import numpy as np
 import framework
 
 DRIVER = "Drivers/C05Majority.lean"
-THEOREMS = ["Qclib.C05_majority", "Qclib.C05_majority_sizes"]
-# sha1 of ast.dump(operate) the model was written against (update together with Model/Majority.lean)
+THEOREMS = ["Qclib.C05_majority", "Qclib.C05_majority_sizes", "Qclib.C05_majority_src"]
+REL = "qclib/gates/majority.py"
+GEN_FILE = os.path.join(framework.LEAN, "QclibModel", "Gen", "Majority.lean")
+LOOP_START = r"^for k in n_controls"
+
+
+def generate(ctx):
+    """Re-translate the size computation of `operate` from the current source (called by props/c05.py's `generate`;
+    a refusal raises and becomes the broken obligation `translator`)."""
+    import py2lean
+    py2lean.ensure_prelude(framework.LEAN)
+    blk = py2lean.translate_block(os.path.join(framework.REPO, REL), "operate", "operate_sizes", "Qclib.Gen.Majority",
+                                  result=["n_min", "n_controls"], stop=LOOP_START,
+                                  views={"len(controls)": "len_controls"}, relpath=REL)
+    text = py2lean.write_module(GEN_FILE, [blk], [REL + " :: operate (the statements before the emission loop: n_min, n_controls)"])
+    import srctie
+    srctie.verify(ctx, "QclibModel.Props.C05Majority", ["Qclib.C05_majority_src"])
+    return {"file": os.path.relpath(GEN_FILE, framework.VERIF), "translated": ["majority.operate: n_min, n_controls"],
+            "bytes": len(text)}
 
 
 class Recorder:
@@ -40,15 +61,25 @@ def emitted(n):
 
 
 def source_fingerprint():
-    path = os.path.join(framework.REPO, "qclib", "gates", "majority.py")
+    """sha1 of the AST of the emission loop of `operate` (everything from `for k in n_controls:` on) and of its signature;
+    the statements before the loop are not fingerprinted but translated (`generate`)."""
+    import re
+    path = os.path.join(framework.REPO, REL)
     tree = ast.parse(open(path).read())
     for node in tree.body:
         if isinstance(node, ast.FunctionDef) and node.name == "operate":
-            return hashlib.sha1(ast.dump(node).encode()).hexdigest()
+            body = [st for st in node.body
+                    if not (isinstance(st, ast.Expr) and isinstance(st.value, ast.Constant))]
+            idx = [i for i, st in enumerate(body) if re.search(LOOP_START, ast.unparse(st).split("\n")[0])]
+            if not idx:
+                return None
+            dump = ast.dump(node.args) + "".join(ast.dump(st) for st in body[idx[0]:])
+            return hashlib.sha1(dump.encode()).hexdigest()
     return None
 
 
-EXPECTED_FINGERPRINT = "cd64ebd4df5b3b8dd805c9b7f2c43d78a4d6bc25"
+# sha1 of the emission loop the model `majority` (Model/Majority.lean) was written against
+EXPECTED_FINGERPRINT = "5df1bd49f1e4ca9bbaf1bd811d5839f3e1c4df2f"
 
 
 def sizes_of(gates):
@@ -66,8 +97,13 @@ def eval_parity(gates, n, xs):
 
 
 def check_n(ctx, n, exhaustive):
-    gates = emitted(n)
     key = f"majority:n={n}"
+    try:
+        gates = emitted(n)
+    except Exception as e:  # n >= 1 controls and a target are a valid input: the construction must not fail
+        ctx.fail(key + ":raises", f"majority.operate raised {type(e).__name__}: {str(e)[:200]} for {n} controls",
+                 {"call": "qclib.gates.majority.operate", "n": n})
+        return None
     if any(t != n for _, t in gates):
         ctx.fail(key + ":target", "an mcx does not act on the target", {"call": "majority.operate", "n": n})
         return gates
@@ -102,7 +138,12 @@ def operator_check(ctx, n):
     from qiskit.quantum_info import Operator
     from qclib.gates import majority
     qc = QuantumCircuit(n + 1)
-    majority.operate(qc, list(range(n)), n)
+    try:
+        majority.operate(qc, list(range(n)), n)
+    except Exception as e:
+        ctx.fail(f"majority:operator:n={n}:raises", f"majority.operate raised {type(e).__name__}: {str(e)[:200]}",
+                 {"call": "majority.operate on QuantumCircuit", "n": n})
+        return
     op = Operator(qc).data
     dim = 2 ** (n + 1)
     ref = np.zeros((dim, dim))
@@ -137,6 +178,30 @@ def sizes_only(n):
     return seen
 
 
+def observed_n_min(n):
+    """`n_min` of the REAL `operate` for n controls, read off the second argument of its `binomial` calls (a module global of
+    majority.py, wrapped for the duration of the call); None if the code no longer calls it."""
+    from qclib.gates import majority
+    lows = []
+    orig_b = getattr(majority, "binomial", None)
+    orig_c = majority.combinations
+    if orig_b is None:
+        return None
+
+    def wrapped(a, b):
+        lows.append(int(b) + 1)
+        return orig_b(a, b)
+
+    majority.binomial = wrapped
+    majority.combinations = lambda controls, k: iter(())
+    try:
+        majority.operate(Recorder(), list(range(n)), n)
+    finally:
+        majority.binomial = orig_b
+        majority.combinations = orig_c
+    return lows[0] if lows and len(set(lows)) == 1 else None
+
+
 def binom_parity(w, k):
     """C(w, k) mod 2 by Lucas: odd iff k is a bit-subset of w."""
     return 1 if (k & ~w) == 0 and k <= w else 0
@@ -149,7 +214,12 @@ def boundary_sizes(ctx, ns):
     the property for every input; evaluated for every weight, in particular ceil(n/2) - 1, ceil(n/2), ceil(n/2) + 1."""
     lines = []
     for n in ns:
-        ks = sizes_only(n)
+        try:
+            ks = sizes_only(n)
+        except Exception as e:
+            ctx.fail(f"majority:sizes:n={n}:raises", f"majority.operate raised {type(e).__name__}: {str(e)[:200]} for {n} controls",
+                     {"call": "qclib.gates.majority.operate", "n": n, "sizes_only": True})
+            continue
         ctx.count("boundary:majority sizes around 2^j")
         lines.append((n, f"{n} : " + " ".join(str(k) for k in sorted(set(ks)))))
         m = (n + 1) // 2
@@ -170,19 +240,34 @@ def boundary_sizes(ctx, ns):
 def run(ctx, nmax=None):
     fp = source_fingerprint()
     if fp != EXPECTED_FINGERPRINT:
-        ctx.obligation_broken("source-fingerprint majority.operate",
-                              f"qclib/gates/majority.py::operate changed (ast sha1 {fp}, model written against "
-                              f"{EXPECTED_FINGERPRINT}); the Lean model Model/Majority.lean may no longer describe it")
+        ctx.obligation_broken("source-fingerprint majority.operate (emission loop)",
+                              f"the emission loop / signature of qclib/gates/majority.py::operate changed (ast sha1 {fp}, "
+                              f"model written against {EXPECTED_FINGERPRINT}); the Lean model `majority` of "
+                              f"Model/Majority.lean may no longer describe it")
     nmax = nmax or (23 if ctx.quick else 27)
     lines = []
     for n in range(1, nmax + 1):
         exhaustive = n <= (14 if ctx.quick else 16)
         gates = check_n(ctx, n, exhaustive)
+        if gates is None:
+            lines.append(f"{n} : raised")
+            continue
         lines.append(f"{n} : " + " ".join(str(k) for k in sizes_of(gates)))
         if n <= (8 if ctx.quick else 10):
             ctx.tie({"op": "majority", "controls": list(range(n)), "target": n},
                     ["mcx " + " ".join(str(q) for q in cs + (t,)) + " ;" for cs, t in gates],
                     label=f"majority gate list n={n}", driver=DRIVER)
+    # double tie of the translation: the definition generated from the source, run by the driver, against the Python original
+    gen_hi = 40 if ctx.quick else 130
+    gen_lines = []
+    for n in range(1, gen_hi + 1):
+        try:
+            gen_lines.append(f"{n} : min {observed_n_min(n)} : " + " ".join(str(k) for k in sizes_only(n)))
+        except Exception as e:
+            gen_lines.append(f"{n} : raised {type(e).__name__}")
+    ctx.tie({"op": "gen_sizes", "lo": 1, "hi": gen_hi}, gen_lines, label=f"translated operate_sizes 1..{gen_hi} vs Python",
+            driver=DRIVER, compare=lambda op, impl, model: None if impl == model else
+            next((f"impl={a!r} generated={b!r}" for a, b in itertools.zip_longest(impl, model) if a != b), "length"))
     ctx.tie({"op": "majority_sizes", "lo": 1, "hi": nmax}, lines, label=f"majority sizes 1..{nmax}",
             driver=DRIVER, compare=lambda op, impl, model: None if impl == model else
             next((f"impl={a!r} model={b!r}" for a, b in itertools.zip_longest(impl, model) if a != b), "length"))
@@ -196,6 +281,8 @@ def search(ctx, hints):
 
 
 def replay(ctx, r):
+    if "replay" in r and "n" not in r:
+        r = r["replay"]
     n = int(r["n"])
     if r.get("sizes_only"):
         boundary_sizes(ctx, [n])
